@@ -9,6 +9,7 @@ import (
 	"context"
 	"database/sql"
 	"database/sql/driver"
+	"encoding/json"
 	"errors"
 	"fmt"
 	"io"
@@ -575,6 +576,11 @@ func ValueFor(col, sqlText string, row Row, idx int, ncols int, res *Result) dri
 				kv = append(kv, []interface{}{k, v})
 			}
 			return kv
+		}
+		if ncols == 1 {
+			// the series endpoints select the stored label document (a JSON string) and pass it on verbatim
+			b, _ := json.Marshal(row.Labels)
+			return string(b)
 		}
 		return row.Labels
 	case "string", "payload", "line":
